@@ -228,7 +228,25 @@ def check(run):
         if not has(e1, "argsort", lambda cc: cc.args and norm(cc.args[0]) == param):
             (problems if understood(e1) else unknown).append(f"sorted face indices are not argsort({param})")
         if not (has(e2, "unique", lambda cc: cc.args and norm(cc.args[0]) == param) and has(e3, "unique", lambda cc: any(k.arg == "return_counts" for k in cc.keywords))):
-            (problems if understood(e2) and understood(e3) else unknown).append("sizes/counts do not come from np.unique(n_nodes_per_face, return_counts=True)")
+            if has(e3, "bincount", lambda cc: cc.args and norm(cc.args[0]) == param):
+                # histogram idiom: counts = bincount(n); sizes and counts must then be restricted to the SAME occupied bins
+                def occupied_filter(expr):
+                    """the returned name itself is (re)defined through a mask of occupied bins / nonzero positions (direct definitions only)"""
+                    vals = [v for (v, _i, _l) in defs.defs.get(expr.id, [])] if isinstance(expr, ast.Name) else [expr]
+                    for v in vals:
+                        if any(isinstance(x, ast.Compare) and isinstance(x.ops[0], (ast.Gt, ast.NotEq)) and norm(x.comparators[0]) == "0" for x in ast.walk(v)):
+                            return True
+                        if any(isinstance(x, ast.Call) and (dotted(x.func) or [""])[-1] in ("flatnonzero", "nonzero") for x in ast.walk(v)):
+                            return True
+                    return False
+                if occupied_filter(e3) and has(e2, "arange") and not occupied_filter(e2):
+                    problems.append("counts come from np.bincount restricted to the occupied bins while the sizes enumerate every value of an arange: sizes and counts are misaligned as soon as a size in between does not occur")
+                elif occupied_filter(e3) and occupied_filter(e2):
+                    unknown.append("sizes/counts come from a bincount histogram (both restricted to occupied bins); alignment not verified")
+                else:
+                    unknown.append("sizes/counts come from a bincount histogram in a form that is not recognised")
+            else:
+                (problems if understood(e2) and understood(e3) else unknown).append("sizes/counts do not come from np.unique(n_nodes_per_face, return_counts=True)")
         if problems:
             run.violation("IDX/partition-summary", c, where(g, ret), "; ".join(problems))
         elif unknown:
